@@ -15,7 +15,7 @@ FUNCTIONS = [
 ]
 BOUNDS = {
     "cohort": "1-2 samples (3 thorough) x every sex mix x male/female reference x chrN/N naming; 4 target bins (2 autosomal on two chromosomes, X, Y) and 0 or 2 antitarget bins, every log2 symbolic in [-10, 10] (no null coverage; one configuration with antitarget log2 down to -25: null-coverage antitarget bins); inferred sexes: 2 samples x {female, male, no call} per file; consensus: 2-3 samples, one outlier with |log2| in [1, 10]",
-    "sequences": "symbolic sequences of <= 6 characters over ACGTacgtNn for gc/rmask; symbolic slice coordinates",
+    "sequences": "symbolic sequences of <= 4 characters (5 thorough; at 6 the counting claims went `unknown` in two of three thorough runs) over ACGTacgtNn for gc/rmask; symbolic slice coordinates",
 }
 NOT_COVERED = [
     "the numerics of biweight_location / biweight_midvariance: they are spies returning fresh values, what is decided is the exact vector each bin hands to them (their own invariants: C19)",
@@ -387,6 +387,6 @@ HARNESSES = [
     Harness("inferred_sexes", h_infer, [{"with_anti": True}, {"with_anti": False}, {"with_anti": True, "empty_anti": True}, {"with_anti": True, "stated": False}, {"with_anti": False, "stated": True}], covers=["reached", "antitarget call only", "calls disagree"], wall_s=300),
     Harness("depth_only_corrected", h_depth_only_corrected, [{"n_samples": 2}, {"n_samples": 3, "tier": "thorough"}], covers=["reached"], wall_s=400, thorough_wall_s=1500),
     Harness("consensus_outlier", h_consensus, [{"n": n, "side": sd} for n in (3, 4) for sd in ("low", "high")] + [{"n": n, "side": sd, "family": "depth_only"} for n in (3, 4) for sd in ("low", "high")], covers=["reached"], wall_s=300, query_timeout_ms=60000),
-    Harness("gc_rmask", h_gc, [{"L": 0}, {"L": 1}, {"L": 3}, {"L": 4}, {"L": 6, "tier": "thorough"}], covers=["all ambiguous", "mixed case"], wall_s=200, thorough_wall_s=1500, query_timeout_ms=60000),
+    Harness("gc_rmask", h_gc, [{"L": 0}, {"L": 1}, {"L": 3}, {"L": 4}, {"L": 5, "tier": "thorough"}], covers=["all ambiguous", "mixed case"], wall_s=200, thorough_wall_s=1500, query_timeout_ms=60000),
     Harness("fasta_slice", h_slice, [{}], covers=["reached"]),
 ]
